@@ -147,6 +147,9 @@ def run_check(prop: str, tier: str) -> int:
     for kf in common.known_findings():
         if kf["property"] == prop and kf.get("regression_scenario"):
             scns.append(dict(kf["regression_scenario"], family="ledger:" + kf["id"]))
+    for i, scn in enumerate(scns):          # every third history: the manager is built by the command-line route (run_worker)
+        if i % 3 == 1 and not str(scn.get("family", "")).startswith("ledger:"):
+            scn["cfg"] = dict(scn["cfg"], via="cli")
     traces = mbt.drive("engine.pm_check", "_drive_one", scns)
     verdicts = mbt.observe(traces, "ObsPm", shards=8 if q else 16)
     viol_n = 0
